@@ -84,13 +84,97 @@ func ruleAddRemoveSymmetry(r *Run) {
 		r.undecided("state/add-path", token.NoPos, "registration writes no state container")
 	}
 	for t := range add {
+		if t == "state.handlers" && !del[t] {
+			if hr := p.handlersRemoval(rm); hr.mode == "keep-empty" {
+				r.ok("removeHandler/empties:"+t, rm.Pos(), "removal writes the filtered (possibly empty) list back for every method of the dropped connection")
+				continue
+			}
+		}
 		r.check(del[t], "removeHandler/empties:"+t, rm.Pos(), "removal deletes from "+t, "registration fills "+t+" but removeHandler never deletes from it: a dropped connection stays registered there")
 	}
 }
 
+// handlersRemoval describes how removeHandler leaves state.handlers[name] once the dropped connection's handlers
+// are filtered out: "delete-empty" (the entry is deleted when nothing is left and written back otherwise: a key is
+// present iff the method has a backend), "keep-empty" (the filtered list is written back whatever its length: an
+// entry may be present and empty, so presence means nothing), or "bad".
+type handlersRemoval struct {
+	del, upd ssa.Instruction
+	mode     string
+}
+
+func emptinessEdge(in ssa.Instruction, wantEmpty bool) bool {
+	for _, g := range guardsOf(in.Block()) {
+		bo, ok := g.Cond.(*ssa.BinOp)
+		if !ok {
+			continue
+		}
+		lc, ok := bo.X.(*ssa.Call)
+		if !ok || calleeName(lc) != "builtin.len" {
+			continue
+		}
+		k, isC := constInt(bo.Y)
+		if !isC || k != 0 {
+			continue
+		}
+		isEmpty := (bo.Op == token.EQL && g.True) || (bo.Op == token.NEQ && !g.True) || (bo.Op == token.GTR && !g.True) || (bo.Op == token.LEQ && g.True)
+		isNonEmpty := (bo.Op == token.EQL && !g.True) || (bo.Op == token.NEQ && g.True) || (bo.Op == token.GTR && g.True) || (bo.Op == token.LEQ && !g.True)
+		if wantEmpty && isEmpty {
+			return true
+		}
+		if !wantEmpty && isNonEmpty {
+			return true
+		}
+	}
+	return false
+}
+
+func (p *Program) handlersRemoval(rm *ssa.Function) handlersRemoval {
+	var hr handlersRemoval
+	for _, w := range p.regionWrites(p.Effects(), rm) {
+		if w.Target() == "state.handlers" {
+			switch w.Kind {
+			case "delete":
+				hr.del = w.Instr
+			case "mapupdate":
+				hr.upd = w.Instr
+			}
+		}
+	}
+	hr.mode = "bad"
+	switch {
+	case hr.del != nil && hr.upd != nil:
+		if emptinessEdge(hr.del, true) && emptinessEdge(hr.upd, false) {
+			hr.mode = "delete-empty"
+		}
+	case hr.upd != nil:
+		mu, ok := hr.upd.(*ssa.MapUpdate)
+		if !ok || emptinessEdge(hr.upd, true) || emptinessEdge(hr.upd, false) {
+			break
+		}
+		// what is written back is the list built by the filter (nil when nothing was kept), never the old list
+		built := true
+		for _, o := range p.origins(mu.Value, originOpts{}) {
+			if isNilConst(o) {
+				continue
+			}
+			if c, ok := o.(*ssa.Call); ok && calleeName(c) == "builtin.append" {
+				continue
+			}
+			if _, ok := o.(*ssa.MakeSlice); ok {
+				continue
+			}
+			built = false
+		}
+		if built {
+			hr.mode = "keep-empty"
+		}
+	}
+	return hr
+}
+
 func ruleRemoveFilter(r *Run) {
 	p := r.P
-	e := p.Effects()
 	rm := p.Method("state", "removeHandler")
 	if rm == nil {
 		r.missing("method (*state).removeHandler")
@@ -174,49 +258,67 @@ func ruleRemoveFilter(r *Run) {
 		r.check((a == "state.handlers" && b == "connList.handlers") || (b == "state.handlers" && a == "connList.handlers"), "removeHandler/compares-method-vs-conn-handlers", keepCmp.Pos(),
 			"the comparison is between a handler registered for the method and a handler of the dropped connection", fmt.Sprintf("the comparison is between %s and %s, not between the method's handlers and the dropped connection's handlers", a, b))
 	}
-	// (3) delete on the empty edge; write-back otherwise
-	var del, upd ssa.Instruction
-	for _, w := range p.regionWrites(e, rm) {
-		if w.Target() == "state.handlers" {
-			switch w.Kind {
-			case "delete":
-				del = w.Instr
-			case "mapupdate":
-				upd = w.Instr
-			}
+	// (3) the per-method entry after the filter: deleted when empty and written back otherwise, or written back always
+	hr := p.handlersRemoval(rm)
+	switch hr.mode {
+	case "delete-empty":
+		r.ok("removeHandler/empty-edge", hr.del.Pos(), "the per-method entry is deleted exactly when no handler is left and written back otherwise")
+	case "keep-empty":
+		r.ok("removeHandler/empty-edge", hr.upd.Pos(), "the filtered list is written back whatever its length (an entry may stay present and empty: see HANDLERS-PRESENCE for its readers)")
+	default:
+		if hr.del == nil || hr.upd == nil {
+			r.bad("removeHandler/empty-edge", rm.Pos(), "removeHandler neither deletes empty per-method entries and writes back non-empty ones, nor writes the filtered list back unconditionally (delete: %v, write-back: %v): a dropped connection's handlers stay registered", hr.del != nil, hr.upd != nil)
+		} else {
+			r.bad("removeHandler/empty-edge", hr.del.Pos(), "the per-method entry is deleted / written back on the wrong edge of the emptiness test: a method with a live backend is reported unimplemented, or an empty entry stays")
 		}
 	}
-	if del == nil || upd == nil {
-		r.bad("removeHandler/empty-edge", rm.Pos(), "removeHandler does not both delete empty per-method entries and write back non-empty ones (delete: %v, write-back: %v)", del != nil, upd != nil)
+}
+
+func init() {
+	register(&Rule{Name: "HANDLERS-PRESENCE", Floor: 3,
+		Doc: "a key of state.handlers means 'this method has a backend' only if removeHandler deletes the entries it empties; when removal writes the filtered list back whatever its length, no reader of state.handlers may branch on the presence of a key (comma-ok): a dropped method would be dispatched to (rand.Intn(0) panics) or treated as already registered (its rules are never bound again)",
+		Run: ruleHandlersPresence})
+}
+
+func ruleHandlersPresence(r *Run) {
+	p := r.P
+	rm := p.Method("state", "removeHandler")
+	hf := p.StructField("state", "handlers")
+	if rm == nil || hf == nil {
+		r.missing("method (*state).removeHandler / field state.handlers")
 		return
 	}
-	emptyEdge := func(in ssa.Instruction, wantEmpty bool) bool {
-		for _, g := range guardsOf(in.Block()) {
-			bo, ok := g.Cond.(*ssa.BinOp)
+	hr := p.handlersRemoval(rm)
+	site := map[*ssa.Function]int{}
+	for _, fn := range p.ModuleFuncs() {
+		eachInstr(fn, func(in ssa.Instruction) {
+			l, ok := in.(*ssa.Lookup)
 			if !ok {
-				continue
+				return
 			}
-			lc, ok := bo.X.(*ssa.Call)
-			if !ok || calleeName(lc) != "builtin.len" {
-				continue
+			is := false
+			for _, o := range p.origins(l.X, originOpts{}) {
+				if loadsField(o, hf) {
+					is = true
+				}
 			}
-			k, isC := constInt(bo.Y)
-			if !isC || k != 0 {
-				continue
+			if !is {
+				return
 			}
-			isEmpty := (bo.Op == token.EQL && g.True) || (bo.Op == token.NEQ && !g.True) || (bo.Op == token.GTR && !g.True) || (bo.Op == token.LEQ && g.True)
-			isNonEmpty := (bo.Op == token.EQL && !g.True) || (bo.Op == token.NEQ && g.True) || (bo.Op == token.GTR && g.True) || (bo.Op == token.LEQ && !g.True)
-			if wantEmpty && isEmpty {
-				return true
+			site[fn]++
+			key := fmt.Sprintf("%s/state.handlers-lookup#%d", shortFunc(fn), site[fn])
+			switch {
+			case !l.CommaOk:
+				r.ok(key, l.Pos(), "the list is read by value (an absent key and an empty list are the same to this reader)")
+			case hr.mode == "delete-empty":
+				r.ok(key, l.Pos(), "presence of the key is tested; removeHandler deletes the entries it empties, so present means non-empty")
+			case hr.mode == "keep-empty":
+				r.bad(key, l.Pos(), "this reader branches on the presence of a key of state.handlers, but removeHandler leaves present-and-empty entries behind (it writes the filtered list back whatever its length): a method whose last backend was dropped still counts as registered here")
+			default:
+				r.info(key, l.Pos(), "presence of the key is tested; removeHandler's treatment of emptied entries is reported by REMOVE-FILTER")
 			}
-			if !wantEmpty && isNonEmpty {
-				return true
-			}
-		}
-		return false
+		})
 	}
-	r.check(emptyEdge(del, true) && emptyEdge(upd, false), "removeHandler/empty-edge", del.Pos(), "the per-method entry is deleted exactly when no handler is left and written back otherwise",
-		"the per-method entry is deleted / written back on the wrong edge of the emptiness test: a method with a live backend is reported unimplemented, or an empty entry stays")
 }
 
 func rulePickCurrent(r *Run) {
